@@ -27,7 +27,7 @@ from . import core
 from .core import BoundExceeded, Ctx, Inconclusive, PathAbort, SBool, SInt, Unsupported, zb, zi
 from .interp import Interp, NativeInterp
 from .seq import SSeq
-from .symdict import SymDict
+from .symdict import SymDict, SymSet
 
 
 class AssumptionFailed(Exception):
@@ -167,6 +167,8 @@ def concretize_value(model, v):
         return bytes(vals)
     if isinstance(v, SymDict):
         return {freeze(concretize_value(model, k)): concretize_value(model, x) for k, x in v.s_items()}
+    if isinstance(v, SymSet):
+        return sorted((freeze(concretize_value(model, x)) for x in v), key=repr)
     if isinstance(v, tuple):
         return tuple(concretize_value(model, x) for x in v)
     if isinstance(v, list):
@@ -188,6 +190,8 @@ def normalize_obs(v):
     """make observations comparable between symbolic and native runs"""
     if isinstance(v, bytearray):
         return bytes(v)
+    if isinstance(v, (set, frozenset)):
+        return sorted((normalize_obs(x) for x in v), key=repr)
     if isinstance(v, (tuple, list)):
         return [normalize_obs(x) for x in v]
     if isinstance(v, dict):
